@@ -19,22 +19,25 @@ package hackpadfs
 //@ interface FS.Open(name string) (f File, err error)
 //@   deterministic
 //@   ensures "result" implies(err == nil, f != nil)
-//@   ensures "gate" implies(!VP(name), errIs(err, ErrInvalid))
+//@   ensures "gate" implies(!VP(name), errIs(err, ErrInvalid) && world() == old(world()))
 
 //@ interface MountFS.Mount(name string) (mountFS FS, subPath string)
 //@   deterministic
 //@   pure
-
-//@ interface MkdirFS.Mkdir(name string, perm FileMode) (err error)
-//@   deterministic
-//@   ensures "gate" implies(!VP(name), errIs(err, ErrInvalid))
+//@   ensures "invalid-stays-invalid" implies(!VP(name), !VP(subPath))
 
 // ---- error translation between namespaces ----
+
+//@ spec translated(r error, e error, name string, sub string) := r == ret("hackpadfs.stripErrPathPrefix", 0, e, name, sub)
+//@ spec mountOf(fs FS, name string) := ret("hackpadfs.(MountFS).Mount", 0, fs, name)
+//@ spec subOf(fs FS, name string) := ret("hackpadfs.(MountFS).Mount", 1, fs, name)
 
 //@ spec sameErrShape(r error, e error) := tag(r) == tag(e) && opOf(r) == opOf(e) && innerErr(r) == innerErr(e)
 
 //@ func stripErrPathPrefix(err error, name string, mountSubPath string) (r error)
-//@   props C05
+//@   props C05 C06 C07 C08
+//@   deterministic
+//@   noworld
 //@   ensures "nil" iff(r == nil, err == nil)
 //@   ensures "other" implies(err != nil && !isPathError(err) && !isLinkError(err), r == err)
 //@   ensures "shape" implies(isPathError(err) || isLinkError(err), sameErrShape(r, err) && fresh(r))
@@ -53,3 +56,36 @@ package hackpadfs
 //@                        oldOf(r) == pjoin(mp, oldOf(err)) && newOf(r) == pjoin(mp, newOf(err))))
 //@   ensures "never-empty" implies(vpBasic(name) && vpBasic(pathOf(err)) && isPathError(err) && VP(name) && VP(pathOf(err)), pathOf(r) != "")
 //@   nopanic
+
+// ---- Sub views ----
+
+//@ type subFS invariant s: VP(s.basePath) && s.rootFS != nil
+
+//@ func newSubFS(fs FS, dir string) (r FS, err error)
+//@   props C07 C04 C05
+//@   ensures "gate" iff(err == nil, VP(dir))
+//@   ensures "errtype" implies(err != nil, r == nil && isPathError(err) && pathOf(err) == dir && errIs(err, ErrInvalid))
+//@   ensures "view" implies(err == nil, isType(r, *subFS) && fresh(r.(*subFS)) && r.(*subFS).basePath == dir && r.(*subFS).rootFS == fs)
+//@   nopanic
+
+//@ func (fs *subFS) Mount(p string) (mount FS, subPath string)
+//@   props C07 C04 C06
+//@   requires fs != nil
+//@   use vpSplit(fs.basePath, p)
+//@   ensures "root" mount == fs.rootFS
+//@   ensures "join" implies(VP(p), subPath == pjoin(fs.basePath, p) && VP(subPath) && under(subPath, fs.basePath))
+//@   ensures "invalid-stays-invalid" implies(!VP(p), subPath == p)
+//@   pure
+//@   nopanic
+
+//@ func (fs *subFS) Open(name string) (f File, err error)
+//@   props C07 C04 C05
+//@   requires fs != nil
+//@   ensures "gate" implies(!VP(name), f == nil && isPathError(err) && pathOf(err) == name && errIs(err, ErrInvalid) && world() == old(world()))
+//@   ensures "delegates" implies(VP(name), f == old(ret("hackpadfs.(FS).Open", 0, fs.rootFS, pjoin(fs.basePath, name))) &&
+//@                         translated(err, old(ret("hackpadfs.(FS).Open", 1, fs.rootFS, pjoin(fs.basePath, name))), name, pjoin(fs.basePath, name)) &&
+//@                         world() == old(worldAfter("hackpadfs.(FS).Open", fs.rootFS, pjoin(fs.basePath, name))))
+//@   nopanic
+
+//@ func ValidPath(path string) (r bool)
+//@   inline
